@@ -119,14 +119,18 @@ Fixpoint lstrip (c : Z) (s : str) : str :=
 Definition remove_relative_path_marker (s : str) : str :=
   if starts_with [DOT; SLASH] s then skipn 2 s else s.
 
-(* helpers.get_sanitized_output_path(fname, path); cwd is Path.cwd(); None = Bad7zFile *)
+(* my.relative_to(other) when it does not raise: the parts behind other's *)
+Definition relative_to (my other : ppath) : ppath := mkP 0 (skipn (length (pparts other)) (pparts my)).
+
+(* helpers.get_sanitized_output_path(fname, path); cwd is Path.cwd(); None = Bad7zFile.
+   Without a destination the checked path itself is returned, relative to the current directory. *)
 Definition get_sanitized_output_path (fname : str) (cwd : rpath) (path : option ppath) : option ppath :=
   let fname := lstrip SLASH fname in
   match path with
   | None =>
-    let c := mkP 1 cwd in
-    let target := canonical_path (pjoin c fname) in
-    if is_relative_to target c then Some (pparse (remove_relative_path_marker fname)) else None
+    let c := canonical_path (mkP 1 cwd) in
+    let target := canonical_path (pjoin c (remove_relative_path_marker fname)) in
+    if is_relative_to target c then Some (relative_to target c) else None
   | Some path =>
     let outfile := canonical_path (pjoin path (remove_relative_path_marker fname)) in
     if is_relative_to outfile path then Some outfile else None
